@@ -195,3 +195,25 @@ def record_emission(w, lf):
             else:
                 pieces.append(pc)
     return dict(writes=order, others=others, pieces=pieces, problems=problems)
+
+
+_INPLACE = re.compile(r"(^|::)(sort\w*|reverse|retain\w*|dedup\w*|truncate|drain|swap\w*|rotate\w*|remove|insert|pop|split_off|clear|"
+                      r"select_nth\w*|fill\w*|resize\w*|append|extend\w*|push)$")
+
+
+def inplace_changes_of_records(w, body, reader_paths):
+    """Calls in `body` that reorder, drop or add elements in place on the vector a bucket reader returned (the symbolic
+    pipeline term does not see them: they take the vector by &mut and return nothing)."""
+    prog = w.prog
+    out = []
+    for blk, t in body.calls():
+        if t.callee is None or not t.args or not _INPLACE.search(t.callee.path):
+            continue
+        if not re.search(r"(slice::<impl \[T\]>|std::vec::Vec::<T|<impl \[T\]>|VecDeque)", t.callee.path):
+            continue
+        for o in prog.resolve_op(body, t.args[0], OKFLOW, blk.i):
+            g = prog.callee_fn(o.term) if o.kind == "call" else None
+            if g is not None and g.path in reader_paths:
+                out.append((blk, t))
+                break
+    return out
